@@ -428,9 +428,9 @@ Proof.
   split; [exact Ht|]. intros Hh. apply Ht. apply home_target. exact Hh.
 Qed.
 
-(* a source inside the root that is neither of the two forms of [place_clean] is installed exactly
+(* a source inside the root (not an installed plugin directory with a non-executable candidate) is installed exactly
    as an outside copy of it would be, or refused as being the installed plugin itself; then nothing changes *)
-Theorem at_as_outside tbl st p ow : place_clean st p = true ->
+Theorem at_as_outside tbl st p ow : not_installed_dir_with_nonexec_candidate st p = true ->
   install_at tbl st p ow = install tbl st (rs_src (resolve st p)) ow \/
   (install_at tbl st p ow = (st, mk_ires None None (Some ESelf)) /\
    exists n, rs_home (resolve st p) = Some n /\
@@ -441,7 +441,7 @@ Proof.
 Qed.
 
 (* refused or failed: root, List and all answers as they were - wherever the source lies *)
-Theorem at_frame tbl st p ow st' r : place_clean st p = true ->
+Theorem at_frame tbl st p ow st' r : not_installed_dir_with_nonexec_candidate st p = true ->
   install_at tbl st p ow = (st', r) -> r_err r <> None ->
   st' = st /\ r_new r = None /\ r_existing r = None /\ view_of tbl st' = view_of tbl st.
 Proof.
@@ -452,7 +452,7 @@ Qed.
 
 (* the plugin's own directory / executable, with overwrite, when the plugin works: refused, untouched *)
 Theorem at_self_refused tbl st p k exe copy v :
-  place_clean st p = true -> source_ok (rs_src (resolve st p)) = true ->
+  not_installed_dir_with_nonexec_candidate st p = true -> source_ok (rs_src (resolve st p)) = true ->
   rs_home (resolve st p) = Some k -> locate (rs_src (resolve st p)) = LOk exe k copy ->
   tbl_get (f_cid exe) tbl = MOk k v ->
   install_at tbl st p true = (st, mk_ires None None (Some ESelf)).
@@ -483,7 +483,7 @@ Qed.
 (* a refused installation at any place of a history whose installations name their places *)
 Theorem at_history_step_frame tbl ops1 p ow st :
   let T := final_state_at tbl st ops1 in
-  place_clean T p = true -> r_err (snd (install_at tbl T p ow)) <> None ->
+  not_installed_dir_with_nonexec_candidate T p = true -> r_err (snd (install_at tbl T p ow)) <> None ->
   final_state_at tbl st (ops1 ++ [AInstall p ow]) = T.
 Proof.
   intros T Hc He. rewrite final_state_at_app. cbn [final_state_at mstep_at]. fold T.
@@ -505,10 +505,11 @@ Lemma self_v0_refuted :
   install_at self_tbl self_st (PInDir "foo") false = (self_st, mk_ires None None (Some EEqual)).
 Proof. vm_compute. repeat split; reflexivity. Qed.
 
-(* still false of the faithful model (findings): [place_clean] cannot be dropped from at_frame *)
+(* the hypothesis of at_frame cannot be dropped: the documented chmod of a directory source whose only
+   candidate is not executable, applied to a source that is an installed plugin directory *)
 Lemma at_frame_chmod_refuted :
   let st := [("foo", [F "lib.so" 420 7; F "notation-foo" 420 1])] in
-  place_clean st (PInDir "foo") = false /\
+  not_installed_dir_with_nonexec_candidate st (PInDir "foo") = false /\
   (forall ow, exists e, install_at self_tbl st (PInDir "foo") ow
                         = ([("foo", [F "lib.so" 420 7; F "notation-foo" 484 1])], mk_ires None None (Some e))) /\
   existing self_tbl st "foo" = Some AFail /\
@@ -518,11 +519,19 @@ Proof.
   intros [|]; eexists; vm_compute; reflexivity.
 Qed.
 
-Lemma at_frame_linkfile_refuted :
-  place_clean self_st (PLinkFile "notation-foo" "foo" "notation-foo") = false /\
+(* before ccdc027: a link named notation-foo, elsewhere, to <root>/foo/notation-foo, with overwrite: copy
+   error and the plugin gone; now refused as the installed plugin itself, untouched *)
+Lemma linkfile_v1_refuted :
+  install_at_v1 self_tbl self_st (PLinkFile "notation-foo" "foo" "notation-foo") true
+    = ([], mk_ires None None (Some ECopy)) /\
   install_at self_tbl self_st (PLinkFile "notation-foo" "foo" "notation-foo") true
-    = ([], mk_ires None None (Some ECopy)).
-Proof. vm_compute. split; reflexivity. Qed.
+    = (self_st, mk_ires None None (Some ESelf)) /\
+  install_at self_tbl self_st (PLinkFile "notation-foo" "foo" "notation-foo") false
+    = (self_st, mk_ires None None (Some EEqual)) /\
+  (* a link named for another plugin to that executable: the metadata names foo, not baz *)
+  install_at self_tbl self_st (PLinkFile "notation-baz" "foo" "notation-foo") true
+    = (self_st, mk_ires None None (Some EMisnamed)).
+Proof. vm_compute. repeat split; reflexivity. Qed.
 
 (* another plugin's directory holding an executable named for foo: foo is installed from it as from any
    directory, the other directory stays as it is; the directory of a plugin cannot name another plugin
